@@ -402,7 +402,7 @@ def check(run):
     quick = run.tier == 'quick'
     run.absorb(core.pool_map('vk.c19_table', 'shard', [(run.seed * 1000 + i, 70 if quick else 1000, 25) for i in range(16)],
                              mem_gb=None))
-    run.min_class_fraction = {'flag:read-directly-after-insert': 0.2, 'flag:index-after-inserts': 0.1}
+    run.min_class_fraction = {'flag:read-directly-after-insert': 0.2, 'flag:index-after-inserts': 0.04}
 
 
 def replay(case):
